@@ -470,6 +470,24 @@ pub fn list_band_ids(archive: &Path, hook: &Hook) -> OpReport<Vec<u32>> {
     })
 }
 
+/// `conserve versions` as the command line runs it: `show_versions` with the detail
+/// options on (start time, duration, tree size, which walks the stitched index) or off.
+/// Prints to stdout; lines not starting with `@@` are ignored by the engine.
+pub fn show_versions(archive: &Path, hook: &Hook, detail: bool, newest_first: bool) -> OpReport<()> {
+    run_op(move |_m| async move {
+        let a = Archive::open(transport(archive, hook)).await?;
+        let options = conserve::ShowVersionsOptions {
+            newest_first,
+            tree_size: detail,
+            start_time: detail,
+            backup_duration: detail,
+            utc: true,
+        };
+        let monitor = Arc::new(conserve::termui::TermUiMonitor::new(false));
+        conserve::show_versions(&a, &options, monitor).await
+    })
+}
+
 pub fn validate(archive: &Path, hook: &Hook, quick: bool) -> OpReport<()> {
     validate_rt(Rt::Current, archive, hook, quick)
 }
